@@ -249,7 +249,6 @@ theorem short_elems_would_panic :
     BitArr.validateBasic (some { bits := 81, elems := 1 }) = false := by decide
 
 open Tmv.PeerMsgs in
-example : (NewValidBlock.valid { height := 1, round := 0, total := 81, hashLen := 32,
-    parts := newBitArray 81 }) = true := by decide
+example : (NewValidBlock.valid ⟨1, 0, 81, 32, newBitArray 81⟩) = true := by decide
 
 end Tmv.Props.C17
